@@ -194,7 +194,10 @@ def exprs(draw, depth, names, helpers, control_flow, allow_partial=True, pvars=(
     # the supported subset (a Config or TaggedValue argument would be received un-built)
     fname = draw(st.sampled_from(['things.f2', 'things.ident', 'things.make_rec', 'things.Base']))
     pk = FUNCS[fname][0]
-    simple = st.one_of(lit, st.sampled_from(['a', 'b']).map(lambda n: ['var', n]))
+    # parameters of the target function: always plain values (a helper's parameter `p` may be handed a
+    # configuration, which an exempted call would receive un-built: outside the supported subset)
+    params = [n for n in names if n in ('a', 'b')]
+    simple = st.one_of(lit, st.sampled_from(params).map(lambda n: ['var', n])) if params else lit
     npos = draw(st.integers(0, len(pk)))
     pos = [draw(simple) for _ in range(npos)]
     kw = {n: draw(simple) for n in pk[npos:] if draw(st.booleans())}
